@@ -5945,6 +5945,9 @@ func (t *CompositeType) SupportedEntitlements() *EntitlementSet {
 		computedSet.Merge(entitlementSupportingBase.SupportedEntitlements())
 	}
 
+	// Minimize the set before it is published:
+	// the cached set is shared between concurrent checkers and must not be mutated afterwards
+	computedSet.Minimize()
 	t.supportedEntitlements.Store(computedSet)
 	return computedSet
 }
@@ -6763,6 +6766,9 @@ func (t *InterfaceType) SupportedEntitlements() *EntitlementSet {
 
 	// Compute set and cache it
 	computedSet := t.computeSupportedEntitlements(map[*InterfaceType]struct{}{})
+	// Minimize the set before it is published:
+	// the cached set is shared between concurrent checkers and must not be mutated afterwards
+	computedSet.Minimize()
 	t.supportedEntitlements.Store(computedSet)
 	return computedSet
 }
@@ -9766,6 +9772,9 @@ func (t *IntersectionType) SupportedEntitlements() *EntitlementSet {
 		ForEach(func(interfaceType *InterfaceType) {
 			computedSet.Merge(interfaceType.SupportedEntitlements())
 		})
+	// Minimize the set before it is published:
+	// the cached set is shared between concurrent checkers and must not be mutated afterwards
+	computedSet.Minimize()
 	t.supportedEntitlements.Store(computedSet)
 	return computedSet
 }
